@@ -161,6 +161,19 @@ class TypedExpression(NixExpression):
     tree_sitter_types: ClassVar[set[str]]
 
 
+def _nix_float_literal(value: float) -> str:
+    """Spell a float the way Nix lexes floats: the mantissa always has a dot.
+
+    ``repr`` yields exponent forms such as ``1e+22`` or ``5e-324``; without a
+    dot Nix reads those as an integer applied to (or added to) an identifier.
+    """
+    text = repr(value)
+    mantissa, exp_sep, exponent = text.partition("e")
+    if exp_sep and "." not in mantissa:
+        mantissa += ".0"
+    return f"{mantissa}{exp_sep}{exponent}"
+
+
 def coerce_expression(value: Any) -> NixExpression:
     """Convert raw primitive values into NixExpression instances."""
     if isinstance(value, NixExpression):
@@ -182,7 +195,7 @@ def coerce_expression(value: Any) -> NixExpression:
             raise ValueError("Unsupported expression type: float must be finite")
         from nix_manipulator.expressions.float import FloatExpression
 
-        return FloatExpression(value=repr(value))
+        return FloatExpression(value=_nix_float_literal(value))
     if isinstance(value, list):
         from nix_manipulator.expressions.list import NixList
 
